@@ -20,10 +20,10 @@ func writeInflight(c *Case) {
 }
 
 type childReq struct {
-	Case  *Case   `json:"case"`
-	Stop  int     `json:"stop"`
-	Order []int   `json:"order,omitempty"`
-	Defer *bool   `json:"defer,omitempty"`
+	Case  *Case `json:"case"`
+	Stop  int   `json:"stop"`
+	Order []int `json:"order,omitempty"`
+	Defer *bool `json:"defer,omitempty"`
 }
 
 // ChildRuns counts child-process executions (evidence).
